@@ -30,8 +30,8 @@ import (
 )
 
 var texts = []string{
-	"SELECT * FROM notes WHERE rank >= ? ORDER BY id",
-	"SELECT * FROM notes WHERE id = ?",
+	"SELECT id, body, rank FROM notes WHERE rank >= ? ORDER BY id",
+	"SELECT id, body, rank FROM notes WHERE id = ?",
 	"SELECT id, body, rank FROM notes WHERE rank < ? ORDER BY id",
 	"SELECT 0 AS id, 'n' AS body, count(*) AS rank FROM notes WHERE rank <> ?",
 }
@@ -127,6 +127,10 @@ func (Prop) Gen(r *core.Rand, tier string) interface{} {
 			switch x := r.Intn(10); {
 			case x < 5:
 				f.Kind, f.Type = "prepare", "err"
+				if r.Chance(30) {
+					// the connection goes bad while preparing (database/sql retries twice outside a transaction)
+					f.Type, f.Burst = "bad_conn", 3
+				}
 				if r.Chance(25) {
 					f.SQL, f.Occ = readBackText, 0 // the writer's read-back falls back to the unprepared path
 				}
